@@ -60,8 +60,9 @@ def dasl(cpu, mem, via='bin', entries=None):
     else:
         # Intel hex rendering of the same image
         lines = []
-        for off in range(0, len(img), 16):
-            ch = img[off:off + 16]
+        rl = 255 if via == 'hexlong' else 16      # (255 data bytes: the longest record the format allows)
+        for off in range(0, len(img), rl):
+            ch = img[off:off + rl]
             a = lo + off
             rec = bytes([len(ch), a >> 8 & 0xff, a & 0xff, 0]) + ch
             lines.append(':' + rec.hex().upper() + '%02X' % ((-sum(rec)) & 0xff))
@@ -88,7 +89,7 @@ def areas(txt):
     return out
 
 
-def roundtrip(cpu, mem, tag, via='bin', entries=None, must=True, leaves_ok=False):
+def roundtrip(cpu, mem, tag, via='bin', entries=None, must=True, leaves_ok=False, must_cover=()):
     """mem is an assembler-produced image: the property applies.  Returns R."""
     o = dasl(cpu, mem, via, entries)
     ck = core.crashkind(o)
@@ -113,6 +114,9 @@ def roundtrip(cpu, mem, tag, via='bin', entries=None, must=True, leaves_ok=False
             if x in cover:
                 return core.R(False, 'areas', '%s/areas-overlap' % cpu, 'address %x is reported in two areas on %s' % (x, d))
             cover[x] = kind
+    miss = [x for x in must_cover if cover.get(x) != 'code']
+    if miss:
+        return core.R(False, 'not-followed', '%s/straight-line-successor-not-disassembled' % cpu, 'addresses %s follow disassembled instructions without a jump but are not listed as code on %s\n%s' % ([hex(x) for x in miss[:4]], d, T[-300:]))
     Z, err = asm_image(cpu, T, False, lo, hi)
     strict_err = None
     if Z is None:
@@ -183,6 +187,12 @@ def programs(tier):
             yield {'k': 'prog', 'cpu': '6800', 'src': '\torg $100\nl:%s\t%s l\n\tswi\n' % ('\tnop\n' * n, mn), 'tag': '%s back %d' % (mn, n + 2)}
         for n in fwd:
             yield {'k': 'prog', 'cpu': '6800', 'src': '\torg $100\n\t%s l\n%sl:\tnop\n\tswi\n' % (mn, '\tnop\n' * n), 'tag': '%s fwd %d' % (mn, n)}
+    # a straight run longer than one maximum-length hex record
+    yield {'k': 'prog', 'cpu': '6800', 'src': '\torg $100\n' + '\tnop\n\tinx\n' * 150 + '\tswi\n', 'tag': '300 one-byte instructions'}
+    # code that runs up to the last address: the successor address wraps to 0
+    yield {'k': 'prog', 'cpu': '6800', 'src': '\torg 0\n\tswi\n\torg $fffc\n\tnop\n\tinx\n\tnop\n\tnop\n', 'tag': 'run to $ffff', 'entries': [0xfffc], 'must_cover': [0xfffc, 0xfffd, 0xfffe, 0xffff, 0]}
+    yield {'k': 'prog', 'cpu': '4004', 'src': '\torg 0\n\tbbl 0\n\torg 4092\n\tnop\n\tiac\n\tnop\n\tnop\n', 'tag': 'run to $fff', 'entries': [4092], 'must_cover': [4092, 4093, 4094, 4095, 0]}
+    yield {'k': 'prog', 'cpu': '87C00', 'src': '\torg 0\n\tret\n\torg 0fffch\n\tnop\n\tnop\n\tnop\n\tnop\n', 'tag': 'run to $ffff', 'entries': [0xfffc], 'must_cover': [0xfffc, 0xfffd, 0xfffe, 0xffff, 0]}
     # data reached only as data, several entry points
     yield {'k': 'prog', 'cpu': '6800', 'src': '\torg $100\n\tldaa tab\n\tldx #tab\n\tjmp fin\ntab:\tfcb 1,2,3\nfin:\tswi\n', 'tag': 'data'}
     yield {'k': 'prog', 'cpu': '6800', 'src': '\torg $100\ne1:\tnop\n\trts\ne2:\tclra\n\trts\ne3:\tjsr e1\n\trts\n', 'tag': 'entries', 'entries': [0x100, 0x102, 0x104]}
@@ -259,7 +269,7 @@ def evaluate(case):
     Y, err = asm_image(cpu, case['src'], False, 0, 0)
     if Y is None:
         return core.R(True, 'program-invalid', nontrivial=False)
-    r = roundtrip(cpu, Y, case['tag'], 'bin', case.get('entries'), leaves_ok=case.get('leaves_ok', False))
+    r = roundtrip(cpu, Y, case['tag'], 'bin', case.get('entries'), leaves_ok=case.get('leaves_ok', False), must_cover=case.get('must_cover', ()))
     if not r['ok'] or r['outcome'] == 'leaves-the-image':
         return r
     r2 = roundtrip(cpu, Y, case['tag'] + ' via hex', 'hex', case.get('entries'))
@@ -270,5 +280,10 @@ def evaluate(case):
     if not r3['ok']:
         r3['sig'] += '/hexfile-descending-records'
         return r3
+    if len(Y) > 16:
+        r4 = roundtrip(cpu, Y, case['tag'] + ' via hex, records of 255 bytes', 'hexlong', case.get('entries'))
+        if not r4['ok']:
+            r4['sig'] += '/hexfile-long-records'
+            return r4
     r['transitions'] = 9
     return r
